@@ -1072,6 +1072,9 @@ func newPointerConverter(indirectType reflect.Type) (*PointerConverter, error) {
 type SliceConverter struct {
 	valueConverter TypeConverter
 	valueType      reflect.Type
+	// elemByAddr is set for slices of structs: the elements are converted as
+	// pointers to them
+	elemByAddr bool
 }
 
 func (c *SliceConverter) To(obj Object) (interface{}, error) {
@@ -1098,7 +1101,13 @@ func (c *SliceConverter) From(iface interface{}) (Object, error) {
 	count := v.Len()
 	items := make([]Object, 0, count)
 	for i := 0; i < count; i++ {
-		item, err := c.valueConverter.From(v.Index(i).Interface())
+		elem := v.Index(i)
+		// A struct is proxied in place, like a struct field: what the
+		// script writes to it is written to the slice's element
+		if c.elemByAddr && elem.CanAddr() {
+			elem = elem.Addr()
+		}
+		item, err := c.valueConverter.From(elem.Interface())
 		if err != nil {
 			return nil, errz.TypeErrorf("type error: failed to convert slice element: %v", err)
 		}
@@ -1110,13 +1119,19 @@ func (c *SliceConverter) From(iface interface{}) (Object, error) {
 // newSliceConverter creates a TypeConverter for slices containing the given
 // value type, where the items can be converted using the given TypeConverter.
 func newSliceConverter(indirectType reflect.Type) (*SliceConverter, error) {
-	indirectConv, err := createTypeConverter(indirectType)
+	convType := indirectType
+	elemByAddr := indirectType.Kind() == reflect.Struct
+	if elemByAddr {
+		convType = reflect.PointerTo(indirectType)
+	}
+	indirectConv, err := createTypeConverter(convType)
 	if err != nil {
 		return nil, err
 	}
 	return &SliceConverter{
 		valueType:      indirectType,
 		valueConverter: indirectConv,
+		elemByAddr:     elemByAddr,
 	}, nil
 }
 
